@@ -748,10 +748,14 @@ func genClientScript(r *rand.Rand, trace, length int, profile string) *clScript 
 			nrules := 0
 			if errno == 0 {
 				nrules = r.Intn(4)
+				maxLen := 1100
+				if r.Intn(8) == 0 { // a rule table of a real system: dozens of (short) rules
+					nrules, maxLen = 30+r.Intn(50), 40
+				}
 				var prev []int
 				for i := 0; i < nrules; i++ {
 					plan = append(plan, gap(r)...)
-					pl := randomPayload(r, 1+r.Intn(1100))
+					pl := randomPayload(r, 1+r.Intn(maxLen))
 					if prev != nil && r.Intn(3) == 0 { // what the kernel lists is up to the kernel: the same payload twice in a row
 						pl = append([]int(nil), prev...)
 					}
@@ -765,8 +769,20 @@ func genClientScript(r *rand.Rand, trace, length int, profile string) *clScript 
 				sc.Ops = append(sc.Ops, clOp{Name: "GetRules", Mode: "wait", Plan: [][]simFrame{plan}})
 			} else {
 				full := [][]simFrame{plan}
+				// a long table: the kernel accepts every deletion, or all but one somewhere
+				refuseAt := -1
+				if nrules >= 30 && r.Intn(2) == 0 {
+					refuseAt = r.Intn(nrules)
+				}
 				for i := 0; i < nrules; i++ {
-					full = append(full, append(gap(r), ackFrame(pickErrno(r))))
+					e := pickErrno(r)
+					if nrules >= 30 {
+						e = 0
+						if i == refuseAt {
+							e = 1 + r.Intn(30)
+						}
+					}
+					full = append(full, append(gap(r), ackFrame(e)))
 				}
 				sc.Ops = append(sc.Ops, clOp{Name: "DeleteRules", Mode: "wait", Plan: full})
 			}
